@@ -106,6 +106,12 @@ theorem pnmap_remove_range_exact {s : State} (hinv : Inv s) {lo hi : Nat} (hle :
     · rintro ⟨a, b, c⟩; exact ⟨a, by omega, c⟩
   · rw [slice_eq_sliceF]; exact sliceF_sorted _ _ _
 
+/-- `iter_mut()`: assigning `f pn v` through every yielded reference changes exactly the bindings
+    (`get k` becomes `f k v`), nothing else, and keeps the invariant. -/
+theorem pnmap_iter_mut_exact {s : State} (hinv : Inv s) (f : Nat → Nat → Nat) :
+    Inv (iterMut s f) ∧ ∀ k, PnMap.get (iterMut s f) k = (PnMap.get s k).map (f k) :=
+  iterMut_spec hinv f
+
 /-- What the callers guarantee ("packet numbers are monotonically generated and inserted"), stated
     on the reference map, implies the precondition the code asserts on its own fields. -/
 theorem pnmap_caller_precondition {s : State} {m : RefMap.State} (hinv : Inv s) (hsim : Sim s m)
